@@ -14,6 +14,29 @@ Comparison with the library is done on frozensets (term order and factor order a
 import itertools
 
 
+def norm_atom(name):
+    """One name for the spellings of a call that differ only in the order of its keyword arguments (the same call)."""
+    if "=" not in name or not name.endswith(")") or "(" not in name:
+        return name
+    head, body = name[: name.index("(")], name[name.index("(") + 1: -1]
+    parts, depth, cur = [], 0, ""
+    for ch in body:
+        if ch in "([{":
+            depth += 1
+        elif ch in ")]}":
+            depth -= 1
+        if ch == "," and depth == 0:
+            parts.append(cur.strip())
+            cur = ""
+        else:
+            cur += ch
+    if cur.strip():
+        parts.append(cur.strip())
+    pos = [p for p in parts if "=" not in p.split("(")[0]]
+    kw = sorted(p for p in parts if "=" in p.split("(")[0])
+    return f"{head}({', '.join(pos + kw)})"
+
+
 def uniq(seq):
     out = []
     for s in seq:
@@ -58,7 +81,7 @@ def ev(t):
     """Expansion of a pipe-free, literal-free tree: ordered duplicate-free list of terms."""
     k = t[0]
     if k == "var":
-        return [(t[1],)]
+        return [(norm_atom(t[1]),)]
     if k == "+":
         return uniq_terms(ev(t[1]) + ev(t[2]))
     if k == "-":
@@ -147,7 +170,7 @@ def ev_ordered(t):
     """Second admissible reading: term identity by ordered factor list (a:b and b:a are two terms)."""
     k = t[0]
     if k == "var":
-        return [(t[1],)]
+        return [(norm_atom(t[1]),)]
     u = uniq
     if k == "+":
         return u(ev_ordered(t[1]) + ev_ordered(t[2]))
@@ -282,6 +305,11 @@ def render_rhs(items, renderer=render_full):
 
 
 def canon_model(common, group):
-    c = frozenset(frozenset(t) for t in common)
-    g = frozenset((frozenset(x), frozenset(y)) for x, y in group)
+    # a back-quoted atom is a variable whose name is the text between the quotes
+    def names(t):
+        # a sorted tuple, not a set: a factor that occurs twice in one term is a different (wrong) term
+        return tuple(sorted(n[1:-1] if len(n) > 1 and n[0] == n[-1] == "`" else norm_atom(n) for n in t))
+
+    c = frozenset(names(t) for t in common)
+    g = frozenset((names(x), names(y)) for x, y in group)
     return c, g
